@@ -1119,6 +1119,40 @@ def k_ecpvalidators(L, c, R):
     for key, rec, msg in r['viol']:
         R.bad(key.replace('ecp:validators:', ''), dict(c), msg)
 
+def curvevalid_jobs(tier, cfg):
+    J = []
+    for p_ in (3, 5, 7, 11, 13, 9, 15, 21, 25, 49, 251, 253, 255, 65521, 65535) + ((1021, 1023) if tier == 'thorough' else ()):
+        J.append(dict(cfg=cfg, part='curve validators (ecpIsValid / ec2IsValid)', kind='curvevalid', fam='p', p=p_, full=p_ <= (49 if tier == 'quick' else 255)))
+    # binary fields: the ten standard DSTU polynomials (irreducible) and reducible neighbours of the same shape (a factor x + 1 when the
+    # number of terms is even is impossible for tri/pentanomials, so reducibility is decided by the reference's Ben-Or test)
+    import dstu as RD_
+    polys = []
+    for nme in RD_.STD_NAMES:
+        polys.append(tuple(RD_.params_std(nme)['p']))
+    seen = set()
+    for poly in polys:
+        if poly in seen:
+            continue
+        seen.add(poly)
+        J.append(dict(cfg=cfg, part='curve validators (ecpIsValid / ec2IsValid)', kind='curvevalid', fam='2', poly=list(poly), irred=True))
+        m = poly[0]
+        cnt = 0
+        for k1 in range(poly[1] + 1, poly[1] + 40):
+            alt = (m, k1, poly[2], poly[3]) if poly[2] else (m, k1, 0, 0)
+            if alt[1] >= m or (alt[2] and alt[1] <= alt[2]):
+                continue
+            f = (1 << m) | (1 << alt[1]) | ((1 << alt[2]) if alt[2] else 0) | ((1 << alt[3]) if alt[3] else 0) | 1
+            irr = polys_irred(f)
+            J.append(dict(cfg=cfg, part='curve validators (ecpIsValid / ec2IsValid)', kind='curvevalid', fam='2', poly=list(alt), irred=irr))
+            cnt += 1
+            if cnt >= (2 if tier == 'quick' else 6):
+                break
+    return J
+
+def polys_irred(f):
+    import polys as PL
+    return bool(PL.is_irreducible(f))
+
 def k_stdgroup(L, c, R):
     """ecpSeemsValidGroup / ec2SeemsValidGroup on a standard curve with the order moved across the Hasse boundary (C06 owns the curve
     contexts); the headers define the predicate exactly"""
@@ -1134,12 +1168,59 @@ def k_stdgroup(L, c, R):
     if v:
         R.bad(v[0], dict(c), v[2])
 
+def k_curvevalid(L, c, R):
+    """ecpIsValid / ec2IsValid as decisions: every coefficient pair (A, B) over a small prime field (complete), composite and too small
+    moduli; binary curves over standard fields and over fields given by REDUCIBLE tri/pentanomials, B = 0 against B != 0.
+    ecp.h: valid iff the field is valid (mod prime), mod > 3, A, B in the field and 4 A^3 + 27 B^2 != 0 (mod p);
+    ec2.h: valid iff the field is valid (polynomial irreducible) and B != 0"""
+    import C06
+    calls = 0
+    def one(spec, exp, what):
+        nonlocal calls
+        try:
+            ctx = C06.Ctx(c['cfg'], spec)
+        except (RuntimeError, AssertionError) as e:
+            return               # the creator refuses the description: nothing to validate
+        try:
+            pre = 'ecp' if spec[0] == 'p' else 'ec2'
+            args = (ctx.n, ctx.fdeep) if pre == 'ecp' else (ctx.n,)
+            st = C06.gbuf(ctx.A, L.sz(pre + 'IsValid_deep', *args))
+            got = L.boolean(pre + 'IsValid', ctx.ec, st); calls += 1
+            if C06.gbad(st):
+                R.bad(pre + 'IsValid:stack', dict(c, spec=list(spec)), '%sIsValid wrote past %sIsValid_deep octets of its stack [%s]' % (pre, pre, what))
+            if got != exp:
+                R.bad('%sIsValid:%s' % (pre, 'invalid-accepted' if got else 'valid-rejected'), dict(c, spec=[spec[0], list(spec[1]) if isinstance(spec[1], tuple) else spec[1], spec[2], spec[3]]),
+                      '%sIsValid = %d for %s; the header gives %d' % (pre, got, what, exp))
+        finally:
+            ctx.A.__exit__()
+    if c['fam'] == 'p':
+        p_ = c['p']
+        prime = ref_prime(p_)
+        if c['full']:
+            pairs = [(a, b) for a in range(p_) for b in range(p_)]
+        else:
+            bs = sorted({0, 1, 2, p_ - 3, p_ - 1, (p_ + 1) // 2})
+            pairs = sorted(set([(a, b) for a in bs for b in bs] + [((-3 * t * t) % p_, (2 * t ** 3) % p_) for t in (1, 2, 5, p_ - 1, 1000 % p_)]
+                               + [((-3 * t * t) % p_, (2 * t ** 3 + 1) % p_) for t in (1, 2, 5)]))
+        for a, b in pairs:
+            if True:
+                exp = int(prime and p_ > 3 and (4 * a ** 3 + 27 * b * b) % p_ != 0)
+                one(('p', p_, a, b), exp, 'y^2 = x^3 + %d x + %d over Z / %d (%s, discriminant %d)' % (a, b, p_, 'prime' if prime else 'composite', (4 * a ** 3 + 27 * b * b) % p_))
+    else:
+        poly = tuple(c['poly'])
+        irr = c['irred']
+        for a in (0, 1):
+            for b in (0, 1, 2, (1 << poly[0]) - 1):
+                one(('2', poly, a, b), int(irr and b != 0), 'y^2 + xy = x^3 + %d x^2 + %#x over GF(2)[x] / (x^%d + x^%d + x^%d + x^%d + 1) (%s)' % (
+                    a, b, poly[0], poly[1], poly[2], poly[3], 'irreducible' if irr else 'reducible'))
+    R.n += calls; R.outc('curve validator calls', calls)
+
 # ================================================================== dispatcher
 KINDS = {'date2_all': k_date2_all, 'date2': k_date2, 'date_range': k_date_range, 'isprimew': k_isprimew, 'nextprimew': k_nextprimew,
          'nextprime': k_nextprime, 'sieved': k_sieved, 'smooth': k_sieved, 'primeval': k_primeval, 'isprime_range': k_isprime_range, 'carm': k_carm,
          'irred': k_irred, 'irred_big': k_irred_big, 'bels_std': k_bels_std, 'std': k_std, 'params': k_params, 'bignkey': k_bignkey,
          'dstupoint': k_dstupoint, 'pfokkey': k_pfokkey, 'pqfam': k_pqfam, 'seed': k_seed, 'gen': k_gen, 'batch': k_batch,
-         'bigngen': k_bigngen, 'sgprime': k_sgprime, 'sgrange': k_sgrange, 'ecpvalidators': k_ecpvalidators, 'stdgroup': k_stdgroup}
+         'bigngen': k_bigngen, 'sgprime': k_sgprime, 'sgrange': k_sgrange, 'ecpvalidators': k_ecpvalidators, 'stdgroup': k_stdgroup, 'curvevalid': k_curvevalid}
 
 def run_case(c):
     L = common.lib(c['cfg'])
@@ -1515,6 +1596,7 @@ def run(tier):
         J += prime_jobs(tier, cfg) + poly_jobs(tier, cfg)
         import C06
         J += [dict(cfg=cfg, part='curve / group validators on small curves', kind='ecpvalidators', spec=['p', p, a, b]) for p, a, b in C06.validator_curves(tier)]
+        J += curvevalid_jobs(tier, cfg)
         J += [dict(cfg=cfg, part='group validators on standard curves (Hasse boundary)', kind='stdgroup', fam=fam, name=name) for fam, name in C06.std_list('thorough')]
     only = [x for x in os.environ.get('C12_ONLY', '').split(',') if x]       # development aid: run a subset of the parts
     if only:
